@@ -436,9 +436,14 @@ def real_unitary(ctx, st, case, alg_name, ham, n, time, n_steps, order, controll
 def expected_unitary(ctx, ref, time, n_steps, order, omit):
     """product of the leaf unitaries with the Model's leaf times (+ the documented final reversal)"""
     sym = order >= 1
-    mo = ctx.driver.one({'op': 'c15.simulate', 'perm': 'reversal' if ref.step_reverses(sym) else 'identity',
-                         'r': ratios_json(order), 'order': order, 'nsteps': n_steps, 'n': ref.n,
-                         'time': rat(Fraction(time)), 'omit': omit})
+    req = {'op': 'c15.simulate', 'perm': 'reversal' if ref.step_reverses(sym) else 'identity',
+           'r': ratios_json(order), 'order': order, 'nsteps': n_steps, 'n': ref.n,
+           'time': rat(Fraction(time)), 'omit': omit}
+    cache = ctx.__dict__.setdefault('_c15_sim_cache', {})
+    key = repr(req)
+    if key not in cache:
+        cache[key] = ctx.driver.one(req)
+    mo = cache[key]
     E = np.eye(2 ** ref.n, dtype=complex)
     cache = {}
     for tj, _ in mo['leaves']:
@@ -1121,6 +1126,10 @@ def ops_stream(ctx):
                 'controlled variants, the orbital-energy gates are compared, the basis changes only counted; distinct = distinct cases')
     rng = rng_for(ctx.seed, 'c15-ops')
     big = ctx.tier == 'thorough' or ctx.drift
+    pending = []     # (request, continuation): the Model is asked once, in one batch, at the end
+
+    def ask(req, cont):
+        pending.append((req, cont))
 
     def cmp_entries(case, real, model, what):
         st.float_comparisons += len(real)
@@ -1175,8 +1184,8 @@ def ops_stream(ctx):
                 nets = 1 if 'asym' in kind else 2
                 if nswaps != nets * n * (n - 1) // 2:
                     st.violate('number of FSWAPs in the step', case, {'got': nswaps})
-                model = ctx.driver.one(dict(base, op='c15.step', kind=kind))
-                cmp_entries(case, real, model, kind)
+                ask(dict(base, op='c15.step', kind=kind),
+                    lambda model, case=case, real=real, kind=kind: cmp_entries(case, real, model, kind))
             # split operator
             if narrow is np.clongdouble:
                 continue   # numpy.linalg has no extended-precision eigh: rejected by the unmodified tree
@@ -1198,19 +1207,20 @@ def ops_stream(ctx):
                     st.violate('controlled step: ' + b[:120], case, {})
                 if nswaps != n * (n - 1) // 2:
                     st.violate('number of SWAPs in the step', case, {'got': nswaps})
-                model = ctx.driver.one({'op': 'c15.step', 'kind': kind, 'n': n, 'V': ratm(V),
-                                        'E': [rat(Fraction(float(x))) for x in stp.orbital_energies]})
-                if ctl:
-                    real_c = [r_ for r_ in real if r_[0] == 2 or (r_[0] == 'diag' and r_[3])]
-                    model_c = [m for m in model if m[0] in (2, 5)]
-                    if not all(r_[3] for r_ in real_c):
-                        st.violate('controlled step emits an uncontrolled generator gate', case, {})
-                    const = [r_ for r_ in real if r_[0] == 4]
-                    if len(const) != 1 or abs(const[0][2] - ham.constant) > 1e-12 or real[-1][0] != 4:
-                        st.violate('controlled step: phase of the constant term', case, {'got': [c[2] for c in const]})
-                    cmp_entries(case, real_c, model_c, case['step'])
-                else:
-                    cmp_entries(case, [r_ for r_ in real if r_[0] == 2], [m for m in model if m[0] == 2], case['step'])
+                def cont(model, case=case, real=real, ctl=ctl, ham=ham):
+                    if ctl:
+                        real_c = [r_ for r_ in real if r_[0] == 2 or (r_[0] == 'diag' and r_[3])]
+                        model_c = [m for m in model if m[0] in (2, 5)]
+                        if not all(r_[3] for r_ in real_c):
+                            st.violate('controlled step emits an uncontrolled generator gate', case, {})
+                        const = [r_ for r_ in real if r_[0] == 4]
+                        if len(const) != 1 or abs(const[0][2] - ham.constant) > 1e-12 or real[-1][0] != 4:
+                            st.violate('controlled step: phase of the constant term', case, {'got': [c[2] for c in const]})
+                        cmp_entries(case, real_c, model_c, case['step'])
+                    else:
+                        cmp_entries(case, [r_ for r_ in real if r_[0] == 2], [m for m in model if m[0] == 2], case['step'])
+                ask({'op': 'c15.step', 'kind': kind, 'n': n, 'V': ratm(V),
+                     'E': [rat(Fraction(float(x))) for x in stp.orbital_energies]}, cont)
     # low rank
     for rep in range(budget(ctx.tier, 2, 5)):
         ham = eightfold(of, rng, 2)
@@ -1247,6 +1257,8 @@ def ops_stream(ctx):
                 cmp_entries(case, real_c, model_c, case['step'])
             else:
                 cmp_entries(case, [r_ for r_ in real if r_[0] == 2], [m for m in mo['entries'] if m[0] == 2], case['step'])
+    for (req, cont), ans in zip(pending, ctx.driver.run([r_ for r_, _ in pending])):
+        cont(ans)
     return st
 
 
